@@ -192,8 +192,14 @@ class Net:
         self.listeners = {}
         self.nconn = 0
         self.pairs = []
-        self.connect_log = []        # (vtime, port, outcome)
-        self.udp = {}
+        self.connect_log = []        # (vtime, port, outcome, task)
+        self.udp_sockets = []
+
+    def udp_factory(self, family=None, type=None, proto=0):   # pylint: disable=redefined-builtin
+        return UdpSocket(self)
+
+    def _unused(self):
+        pass
 
     def listen(self, port, accept_fn):
         lst = Listener(accept_fn)
@@ -232,6 +238,67 @@ class Net:
     def select(self, r, w, x, timeout=None):
         self.sim.yield_point()
         return [s for s in r if s._readable()], [], []
+
+
+class UdpSocket:
+    """simulated datagram socket: the harness injects datagrams, sends are recorded"""
+
+    def __init__(self, net):
+        self.net = net
+        self.sim = net.sim
+        self.queue = []        # (data, addr)
+        self.sent = []         # (vtime, seq, data, addr)
+        self.closed = False
+        self.bound = None
+        self.opts = []
+        self.timeout = None
+        self.received = []     # what recvfrom handed out
+        net.udp_sockets.append(self)
+
+    def setsockopt(self, *a):
+        self.opts.append(a)
+
+    def settimeout(self, t):
+        self.timeout = t
+
+    def bind(self, addr):
+        self.bound = addr
+
+    def fileno(self):
+        return -1
+
+    def inject(self, data, addr):
+        if not self.closed:
+            self.queue.append((bytes(data), addr))
+
+    def recvfrom(self, n):
+        sim = self.sim
+        sim.yield_point()
+        if self.closed:
+            raise OSError(9, 'Bad file descriptor')
+        if not self.queue:
+            ok = sim.wait_until(lambda: self.queue or self.closed, self.timeout, what='udp recv')
+            if not ok:
+                raise _real_socket.timeout('timed out')
+            if self.closed:
+                raise OSError(9, 'Bad file descriptor')
+        data, addr = self.queue.pop(0)
+        self.received.append((sim.vnow(), sim.next_seq(), data, addr))
+        return data[:n], addr
+
+    def sendto(self, data, addr):
+        sim = self.sim
+        sim.yield_point()
+        if self.closed:
+            raise OSError(9, 'Bad file descriptor')
+        self.sent.append((sim.vnow(), sim.next_seq(), bytes(data), addr))
+        return len(data)
+
+    def shutdown(self, how=None):
+        self.closed = True
+
+    def close(self):
+        self.closed = True
 
 
 # ---------------------------------------------------------------- module shims
